@@ -208,13 +208,16 @@ fn run_one(case: &CCase, sched_lines: &[String], free_seed: Option<u64>) -> Vec<
         let mut rng = seed.wrapping_mul(6364136223846793005).wrapping_add(1442695040888963407);
         let mut step = 0usize;
         let mut idle_rounds = 0;
-        // even seeds: priority scheduling with one priority change point (finds interleavings in
-        // which one thread sleeps through whole calls of another); odd seeds: uniform choice
-        let pct = seed % 2 == 0;
+        // seed mod 3 = 0: priority scheduling with one priority change point (finds interleavings in
+        // which one thread sleeps through whole calls of another); 1: uniform choice; 2: sticky choice
+        // (the thread that ran last goes on with probability 0.7: few pre-emptions at random places)
+        let pct = seed % 3 == 0;
+        let sticky = seed % 3 == 2;
+        let mut last_tid: Option<usize> = None;
         let mut prio: HashMap<usize, u64> = HashMap::new();
         for (id, _) in &threads { rng = rng.wrapping_mul(6364136223846793005).wrapping_add(1442695040888963407); prio.insert(*id, 1000 + (rng >> 33) % 1000); }
         rng = rng.wrapping_mul(6364136223846793005).wrapping_add(1442695040888963407);
-        let change_at = ((rng >> 33) % 40) as usize;
+        let change_at = ((rng >> 33) % 24) as usize;
         while step < 400 && idle_rounds < 40 {
             let bits = cassadilia::verif::lock_state(cas.as_arc());
             let cands: Vec<(usize, String)> = {
@@ -235,11 +238,13 @@ fn run_one(case: &CCase, sched_lines: &[String], free_seed: Option<u64>) -> Vec<
             }
             rng = rng.wrapping_mul(6364136223846793005).wrapping_add(1442695040888963407);
             let forced = fsched.get(step).and_then(|t| cands.iter().find(|(c, _)| c == t).cloned());
-            let (tid, from) = if let Some(f) = forced { f } else if step < fsched.len() || !pct { cands[((rng >> 33) as usize) % cands.len()].clone() } else {
+            let keep = if sticky && (rng >> 20) % 10 < 7 { last_tid.and_then(|l| cands.iter().find(|(c, _)| *c == l).cloned()) } else { None };
+            let (tid, from) = if let Some(f) = forced { f } else if let Some(k) = keep { k } else if step < fsched.len() || !pct { cands[((rng >> 33) as usize) % cands.len()].clone() } else {
                 let best = cands.iter().max_by_key(|(t, _)| prio[t]).unwrap().clone();
                 if step == change_at + fsched.len() { prio.insert(best.0, step as u64); }
                 cands.iter().max_by_key(|(t, _)| prio[t]).unwrap().clone()
             };
+            last_tid = Some(tid);
             { let mut g = sched.st.lock().unwrap(); g.parked.remove(&tid); g.go.insert(tid); sched.cv.notify_all(); }
             let start = Instant::now();
             let mut to = None;
